@@ -48,12 +48,57 @@ EXC_CON = {'ValueError': 'EValueError', 'TypeError': 'ETypeError', 'IndexError':
 EXC_CODE = {'ValueError': 1, 'TypeError': 2, 'IndexError': 3, 'NotImplementedError': 4,
             'AssertionError': 5, 'AttributeError': 6, 'KeyError': 7}
 
-# One consistent sampling regime so that nothing but the types decides whether a step is accepted:
-# every wavefront has pixel scale 1 and a finite focal length, every propagation keeps the pixel
-# scale at 1 (du / oversample = 1) and, for the FFT, gives an integer grid wl * z (8 or 16) with
-# propagation wavelength exactly WL.
+# Sampling regimes.  A regime fixes the pixel scale S of the wavefronts of one history (1, 2 or the
+# anisotropic (1, 2)) and their wavelength; focal lengths are 8*max(S)^2/wl (or twice that), every
+# propagation asks for du = S*oversample, so the pixel scale stays S, the FFT grid wl*z/S^2 is an
+# integer (8..64 per axis) and its propagation wavelength is exactly wl.  Planes carry no pixel scale
+# or S ("consistent"), or - when the step says mism - one of the other two values.
+# "Loose" wavefronts are only multiplied, never propagated: default (infinite) focal length, an
+# optical wavelength, 6x5 data, and a pixel scale that may also be undefined.
+SCALES = [1, 2, (1, 2)]
+WLS = [1.0, 0.5]
+STRICT = [(sc, wl, False) for wl in WLS for sc in SCALES]
+LOOSE = [(sc, 650e-9, True) for sc in (None, 1, 2, (1, 2))]
+REG0 = (1, 1.0, False)
 WL = 1.0
-FOCAL = (8.0, 16.0)
+
+
+def _smax(scale):
+    return 1.0 if scale is None else float(max(np.broadcast_to(scale, (2,))))
+
+
+def focal(reg, i=0):
+    scale, wl, loose = reg
+    if loose:
+        return (10.0, 25.0)[i % 2]
+    return 8.0 * _smax(scale) ** 2 / wl * (1, 2)[i % 2]
+
+
+def canon_reg(scale=1, wl=1.0, loose=False):
+    if isinstance(scale, list):
+        scale = tuple(scale)
+    return (scale, wl, bool(loose))
+
+
+def plane_scale(reg, v, mism):
+    """the pixel scale a sampled plane is given: the wavefronts' own, or (mism) a different one"""
+    scale = reg[0]
+    if scale is None:
+        if mism:
+            raise GeneratorError('a wavefront without pixel scale cannot be sampled inconsistently')
+        return SCALES[v % len(SCALES)]
+    if not mism:
+        return scale
+    others = [x for x in SCALES if x != scale]
+    return others[v % len(others)]
+
+
+def _pair(ps):
+    return tuple(float(x) for x in np.broadcast_to(ps, (2,)))
+
+
+def _flt(ps):
+    return float(ps) if np.ndim(ps) == 0 else [float(x) for x in ps]
 
 
 class GeneratorError(Exception):
@@ -99,19 +144,21 @@ def _bordered():
 
 
 PLANE_VARIANTS = [
-    lambda: dict(amplitude=1),
-    lambda: dict(amplitude=np.ones((4, 4))),
-    lambda: dict(amplitude=_ramp((4, 4)), opd=0.25),
-    lambda: dict(amplitude=_bordered(), pixelscale=1),
-    lambda: dict(amplitude=_ramp((3, 5)), opd=_ramp((3, 5)) / 4.0),
-    lambda: dict(amplitude=np.ones((4, 4)), mask=_seg_mask(), pixelscale=1),
-    lambda: dict(amplitude=2.0, opd=0.5),
-    lambda: dict(amplitude=np.ones((4, 4)), opd=_ramp((4, 4)) / 16.0, pixelscale=(1, 1)),
+    lambda ps: dict(amplitude=1),
+    lambda ps: dict(amplitude=np.ones((4, 4))),
+    lambda ps: dict(amplitude=_ramp((4, 4)), opd=0.25),
+    lambda ps: dict(amplitude=_bordered(), pixelscale=ps),
+    lambda ps: dict(amplitude=_ramp((3, 5)), opd=_ramp((3, 5)) / 4.0),
+    lambda ps: dict(amplitude=np.ones((4, 4)), mask=_seg_mask(), pixelscale=ps),
+    lambda ps: dict(amplitude=2.0, opd=0.5),
+    lambda ps: dict(amplitude=np.ones((4, 4)), opd=_ramp((4, 4)) / 16.0, pixelscale=_pair(ps)),
     # other legal argument forms: integer, bool and float32 arrays, 0-d arrays, explicit masks
-    lambda: dict(amplitude=np.ones((4, 4), dtype=int), opd=np.zeros((4, 4), dtype=int)),
-    lambda: dict(amplitude=_bordered().astype(bool)),
-    lambda: dict(amplitude=_ramp((5, 4)).astype(np.float32), opd=np.float32(0.125), pixelscale=1.0),
-    lambda: dict(amplitude=np.array(1.5), opd=np.array(0.0), mask=np.ones((4, 4), dtype=np.uint8)),
+    lambda ps: dict(amplitude=np.ones((4, 4), dtype=int), opd=np.zeros((4, 4), dtype=int)),
+    lambda ps: dict(amplitude=_bordered().astype(bool)),
+    lambda ps: dict(amplitude=_ramp((5, 4)).astype(np.float32), opd=np.float32(0.125), pixelscale=_flt(ps)),
+    lambda ps: dict(amplitude=np.array(1.5), opd=np.array(0.0), mask=np.ones((4, 4), dtype=np.uint8)),
+    lambda ps: dict(amplitude=_ramp((7, 9)), pixelscale=ps),
+    lambda ps: dict(amplitude=3.0, pixelscale=ps),
 ]
 # Tilts are kept small: one tilt plane displaces the propagated field by at most 1/32 output sample
 # (angle * focal length / pixel scale), so that 40 of them displace it by little more than one sample
@@ -123,9 +170,19 @@ DISP_VARIANTS = [([1.0, 0.0], [1.0, 1.0]), ([0.0, 1.0 / 64], [64.0, 0.0]), ([1.0
 ROT_VARIANTS = [dict(angle=90), dict(angle=0), dict(angle=30, order=1), dict(angle=1.0, unit='radians')]
 FLIP_VARIANTS = [dict(axis=None), dict(axis=0), dict(axis=1)]
 # (du, oversample, shape) for the DFT; (du, oversample, shape) for the FFT
-DFT_VARIANTS = [(2, 2, (4, 4)), (1, 1, 4), (3, 3, (2, 3)), (2, 2, (3, 5)), (1, 1, (8, 8)),
-                ((2, 2), 2, [4, 4]), (np.array([1.0, 1.0]), 1, np.array([5, 4]))]
-FFT_VARIANTS = [(2, 2, None), (1, 1, None), (2, 2, 2), (1, 1, (4, 4)), ((2.0, 2.0), 2, None), ([1, 1], 1, [3, 4])]
+# (form of the pixelscale argument, oversample, shape); the output pixel scale asked for is S*oversample
+DFT_VARIANTS = [('scalar', 2, (4, 4)), ('scalar', 1, 4), ('scalar', 3, (2, 3)), ('scalar', 2, (3, 5)),
+                ('scalar', 1, (8, 8)), ('tuple', 2, [4, 4]), ('array', 1, np.array([5, 4]))]
+FFT_VARIANTS = [('scalar', 2, None), ('scalar', 1, None), ('scalar', 2, 2), ('scalar', 1, (4, 4)),
+                ('tuple', 2, None), ('list', 1, [3, 4])]
+
+
+def _du(reg, form, os_):
+    sc = reg[0]
+    if form == 'scalar' and np.ndim(sc) == 0:
+        return sc * os_
+    du = [float(x) * os_ for x in np.broadcast_to(sc, (2,))]
+    return tuple(du) if form in ('tuple', 'scalar') else np.array(du) if form == 'array' else du
 
 
 def _corner(which):
@@ -140,9 +197,9 @@ def _corner(which):
 
 
 CLIP_VARIANTS = [
-    lambda: dict(amplitude=_corner(0)),
-    lambda: dict(amplitude=_corner(1), pixelscale=1),
-    lambda: dict(amplitude=_corner(0) * 2.0, opd=0.25),
+    lambda ps: dict(amplitude=_corner(0)),
+    lambda ps: dict(amplitude=_corner(1), pixelscale=ps),
+    lambda ps: dict(amplitude=_corner(0) * 2.0, opd=0.25),
 ]
 
 
@@ -150,7 +207,7 @@ def n_variants(kind, name, clip=False):
     if kind == 'fresh':
         return 2
     if clip and kind in ('mulp', 'mulc') and name not in ('Rotate', 'Flip'):
-        return len(CLIP_VARIANTS) * (len(FOCAL) if name == 'Pupil' else 1)
+        return len(CLIP_VARIANTS) * (2 if name == 'Pupil' else 1)
     if kind == 'mulp':
         return len(PLANE_VARIANTS)
     if kind == 'prop':
@@ -165,15 +222,17 @@ def n_variants(kind, name, clip=False):
     if name == 'Flip':
         return len(FLIP_VARIANTS)
     if name == 'Pupil':
-        return len(PLANE_VARIANTS) * len(FOCAL)
+        return len(PLANE_VARIANTS) * 2
     return len(PLANE_VARIANTS)
 
 
-def build_plane(lentil, kind, name, v, clip=False, po=None):
+def build_plane(lentil, kind, name, v, clip=False, po=None, reg=REG0, mism=False):
     """kind 'mulp': Plane(ptype=name, ...);  kind 'mulc': an instance of the public class `name`.
     v selects one of the constructions; clip=True asks for an aperture disjoint from all the light
     (ignored by Rotate and Flip, which take no aperture); po = a plane type name: pass it to the class
-    constructor as ptype= (as the object or as the string, alternating with v).
+    constructor as ptype= (as the object or as the string, alternating with v); reg = the sampling
+    regime of the wavefronts it will meet; mism=True: give the plane a pixel scale that differs from
+    theirs (ignored by Rotate and Flip).
     Raises GeneratorError if the object cannot be built."""
     if po is not None and kind == 'mulc':
         if po not in PTYPES:
@@ -181,11 +240,22 @@ def build_plane(lentil, kind, name, v, clip=False, po=None):
         okw = {'ptype': po if v % 2 else getattr(lentil, po)}
     else:
         okw = {}
+    ps = plane_scale(reg, v, mism)
+    var = CLIP_VARIANTS if clip else PLANE_VARIANTS
+
+    def samp(i=None):
+        kw = var[(v if i is None else i) % len(var)](ps)
+        if mism:
+            kw['pixelscale'] = ps
+        return kw
+
+    def bare():
+        return {'pixelscale': ps} if mism else {}
+
     with warnings.catch_warnings():
         warnings.simplefilter('ignore')
         try:
-            samp = (CLIP_VARIANTS[v % len(CLIP_VARIANTS)] if clip else PLANE_VARIANTS[v % len(PLANE_VARIANTS)])
-            nsamp = len(CLIP_VARIANTS) if clip else len(PLANE_VARIANTS)
+            nsamp = len(var)
             if kind == 'mulp':
                 if name not in PTYPES:
                     raise GeneratorError(f'unknown plane type {name!r}')
@@ -194,18 +264,19 @@ def build_plane(lentil, kind, name, v, clip=False, po=None):
             if name == 'Plane':
                 return cls(**samp(), **okw)
             if name == 'Pupil':
-                return cls(focal_length=FOCAL[(v // nsamp) % len(FOCAL)], **samp(), **okw)
+                return cls(focal_length=focal(reg, v // nsamp), **samp(), **okw)
             if name == 'Tilt':
-                x, y = TILT_VARIANTS[v % len(TILT_VARIANTS)]
+                ta = TILT_A if reg[2] else TILT_A * 16.0 / focal(reg, 1)
+                x, y = [t * ta / TILT_A for t in TILT_VARIANTS[v % len(TILT_VARIANTS)]]
                 if not clip and v >= len(TILT_VARIANTS):
-                    return cls(x=x, y=y, **PLANE_VARIANTS[(v - len(TILT_VARIANTS)) % len(PLANE_VARIANTS)](), **okw)
-                return cls(x=x, y=y, **(samp() if clip else {}), **okw)
+                    return cls(x=x, y=y, **samp(v - len(TILT_VARIANTS)), **okw)
+                return cls(x=x, y=y, **(samp() if clip else bare()), **okw)
             if name in ('DispersiveTilt', 'Grism'):
                 tr, di = DISP_VARIANTS[v % len(DISP_VARIANTS)]
+                di = [di[0], reg[1]] if di[1] else di      # reference wavelength = the wavefronts'
                 if not clip and v >= len(DISP_VARIANTS):
-                    return cls(trace=list(tr), dispersion=list(di),
-                               **PLANE_VARIANTS[(v - len(DISP_VARIANTS)) % len(PLANE_VARIANTS)](), **okw)
-                return cls(trace=list(tr), dispersion=list(di), **(samp() if clip else {}), **okw)
+                    return cls(trace=list(tr), dispersion=list(di), **samp(v - len(DISP_VARIANTS)), **okw)
+                return cls(trace=list(tr), dispersion=list(di), **(samp() if clip else bare()), **okw)
             if name == 'Rotate':
                 return cls(**ROT_VARIANTS[v % len(ROT_VARIANTS)], **okw)
             if name == 'Flip':
@@ -215,7 +286,7 @@ def build_plane(lentil, kind, name, v, clip=False, po=None):
             try:
                 return cls(**samp(), **okw)
             except TypeError:
-                if clip or okw:
+                if clip or okw or mism:
                     raise
                 return cls()
         except GeneratorError:
@@ -245,17 +316,21 @@ def accepts_override(lentil, name, po):
     return res.pop()
 
 
-def build_wavefront(lentil, wt, body, v=0):
-    """a wavefront of type wt: 'plain' real 4x4 field data, 'tilted' the same with a tilt object on its
-    field, 'empty' no fields at all (v even: the public Wavefront.empty constructor; v odd: a plain
-    wavefront whose light a disjoint aperture clipped away)"""
+def build_wavefront(lentil, wt, body, v=0, reg=REG0):
+    """a wavefront of type wt in the sampling regime reg: 'plain' real field data, 'tilted' the same with a
+    tilt object on its field, 'empty' no fields at all (v even: the public Wavefront.empty constructor;
+    v odd: a plain wavefront whose light a disjoint aperture clipped away)"""
     if wt not in WTYPES or body not in BODIES:
         raise GeneratorError(f'unknown wavefront state {(wt, body)!r}')
+    scale, wl, loose = reg
+    shape = (6, 5) if loose else (4, 4)
+    kw = dict(pixelscale=scale) if loose else dict(pixelscale=scale, focal_length=focal(reg, 0))
+    ta = TILT_A if loose else TILT_A * 16.0 / focal(reg, 1)
     if body == 'empty' and v % 2 == 0:
-        w = lentil.Wavefront.empty(WL, pixelscale=1, focal_length=FOCAL[0], shape=(4, 4))
+        w = lentil.Wavefront.empty(wl, shape=shape, **kw)
     else:
-        w = lentil.Wavefront(WL, pixelscale=1, focal_length=FOCAL[0], tilt=[TILT_A, 0.0] if body == 'tilted' else None)
-        w = w * lentil.Plane(amplitude=_ramp((4, 4)))
+        w = lentil.Wavefront(wl, tilt=[ta, 0.0] if body == 'tilted' else None, **kw)
+        w = w * lentil.Plane(amplitude=_ramp(shape))
         if body == 'empty':
             w = w * lentil.Plane(amplitude=_corner(1))
     w.ptype = wt if v % 2 else getattr(lentil, wt)      # both documented forms of a plane type
@@ -264,21 +339,34 @@ def build_wavefront(lentil, wt, body, v=0):
     return w
 
 
-def do_propagate(lentil, m, w, v):
+def do_propagate(lentil, m, w, v, reg=REG0):
+    if reg[2] and str(w.ptype) != 'none':
+        raise GeneratorError('a typed loose wavefront (no focal length) is never propagated by this harness')
     with warnings.catch_warnings():
         warnings.simplefilter('ignore')
         if m == 'dft':
-            du, os_, shape = DFT_VARIANTS[v % len(DFT_VARIANTS)]
+            form, os_, shape = DFT_VARIANTS[v % len(DFT_VARIANTS)]
+            du = 5e-6 * os_ if reg[2] else _du(reg, form, os_)     # loose + untyped: must be refused on its type alone
             return lentil.propagate_dft(w, pixelscale=du, shape=shape, oversample=os_)
         if m == 'fft':
-            du, os_, shape = FFT_VARIANTS[v % len(FFT_VARIANTS)]
+            form, os_, shape = FFT_VARIANTS[v % len(FFT_VARIANTS)]
+            du = 5e-6 * os_ if reg[2] else _du(reg, form, os_)
             return lentil.propagate_fft(w, pixelscale=du, shape=shape, oversample=os_)
     raise GeneratorError(f'unknown propagation method {m!r}')
 
 
+_L = []
+
+
+def _lentil():
+    if not _L:
+        _L.append(C.import_lentil())
+    return _L[0]
+
+
 def ptype_name(p):
     """fail closed on anything that is not one of the five known plane types"""
-    lentil = C.import_lentil()
+    lentil = _lentil()
     pt = sys.modules['lentil.ptype'].PType
     if not isinstance(p, pt):
         raise GeneratorError(f'ptype attribute is not a PType object: {p!r}')
@@ -323,24 +411,41 @@ def observe_all():
     classes = class_names(lentil)
     states = [(wt, b) for wt in WTYPES for b in BODIES]
 
-    def cell(kind, name, clip, st, po=None):
+    def cell(kind, name, clip, st, po=None, mism=False):
+        """one cell of the transition function, observed under every construction of the plane (a few of
+        them when mism), two strict sampling regimes per construction (rotating through all six) and, for
+        multiplications, a loose wavefront (default focal length, optical wavelength, other array size,
+        pixel scale possibly undefined); all observations must agree"""
         seen = {}
         nv = n_variants(kind, name, clip)
-        for v in range(nv):
-            for wv in ((0, 1) if st[1] == 'empty' else (v % 2,)):
-                w = build_wavefront(lentil, st[0], st[1], wv)
-                if kind == 'prop':
-                    o = observe(lentil, lambda ww: do_propagate(lentil, name, ww, v), w)
-                else:
-                    pl = build_plane(lentil, kind, name, v, clip, po)
-                    o = observe(lentil, lambda ww: ww * pl, w)
-                    o2 = observe(lentil, pl.multiply, build_wavefront(lentil, st[0], st[1], wv))
-                    if o2 != o:
-                        raise GeneratorError(f'{kind} {name}: w * plane gives {o}, plane.multiply(w) gives {o2}')
-                seen.setdefault(o, (v, wv))
+        si = states.index(st)
+        few = mism or po is not None          # the default cells already go through every construction
+        for v in (range(nv) if not few else range(min(nv, 4))):
+            regs = [STRICT[(v + si) % len(STRICT)]]
+            if kind == 'prop':
+                regs.append(STRICT[(v + si + 1 + v // len(STRICT)) % len(STRICT)])
+                regs.append(STRICT[(v + si + 3) % len(STRICT)])
+                if st[0] == 'none':          # an untyped wavefront is refused whatever else it carries or lacks
+                    regs.append(LOOSE[(v + si) % len(LOOSE)])
+            else:
+                lo = [r for r in LOOSE if not (mism and r[0] is None)]
+                regs.append(lo[(v + si) % len(lo)])
+            for reg in regs:
+                for wv in ((0, 1) if st[1] == 'empty' else (v % 2,)):
+                    w = build_wavefront(lentil, st[0], st[1], wv, reg)
+                    if kind == 'prop':
+                        o = observe(lentil, lambda ww: do_propagate(lentil, name, ww, v, reg), w)
+                    else:
+                        pl = build_plane(lentil, kind, name, v, clip, po, reg, mism)
+                        if (v + si) % 3:
+                            o = observe(lentil, lambda ww: ww * pl, w)
+                        else:
+                            o = observe(lentil, pl.multiply, w)      # the documented other spelling
+                    seen.setdefault(o, (v, wv, reg))
         if len(seen) != 1:
-            raise GeneratorError(f'{kind} {name} (clip={clip}, ptype={po}) on {st}: outcome depends on the construction, not only '
-                                 f'on the types: {seen}')
+            raise GeneratorError(f'{kind} {name} (clip={clip}, ptype={po}, mism={mism}) on {st}: outcome depends on the '
+                                 f'construction (variant, wavefront variant, (pixel scale, wavelength, loose)), not '
+                                 f'only on the types: {seen}')
         return next(iter(seen))
 
     obs = {'classes': classes, 'states': states, 'mul': {}, 'cls': {}, 'prop': {}, 'class_ptype': {},
@@ -357,12 +462,13 @@ def observe_all():
     overrides = [None] + PTYPES
     for st in states:
         for clip in (False, True):
-            for p in PTYPES:
-                obs['mul'][(st, p, clip)] = cell('mulp', p, clip, st)
-            for k in classes:
-                for po in overrides:
-                    if po is None or (k, po) in obs['override_ptype']:
-                        obs['cls'][(k, po, clip, st)] = cell('mulc', k, clip, st, po)
+            for mism in (False, True):
+                for p in PTYPES:
+                    obs['mul'][(st, p, clip, mism)] = cell('mulp', p, clip, st, None, mism)
+                for k in classes:
+                    for po in overrides:
+                        if po is None or (k, po) in obs['override_ptype']:
+                            obs['cls'][(k, po, clip, mism, st)] = cell('mulc', k, clip, st, po, mism)
         for m in METHODS:
             obs['prop'][(m, st)] = cell('prop', m, False, st)
     for k in classes:
@@ -379,7 +485,8 @@ def observe_all():
             [('mulc', k, clip, po) for k in classes for clip in (False, True) for po in overrides
              if po is None or (k, po) in obs['override_ptype']]
     for kind, name, clip, po in specs:
-        tab = (lambda st: obs['mul'][(st, name, clip)]) if kind == 'mulp' else (lambda st: obs['cls'][(name, po, clip, st)])
+        tab = (lambda st: obs['mul'][(st, name, clip, False)]) if kind == 'mulp' else \
+            (lambda st: obs['cls'][(name, po, clip, False, st)])
         v = 0
         for w0 in WTYPES:
             if tab((w0, 'plain'))[0] != 'yields':
@@ -389,14 +496,15 @@ def observe_all():
                     continue
                 for via_copy in (False, True):
                     v += 1
-                    pl = build_plane(lentil, kind, name, v % n_variants(kind, name, clip), clip, po)
-                    first = observe(lentil, lambda ww: ww * pl, build_wavefront(lentil, w0, 'plain'))
+                    reg = STRICT[v % len(STRICT)]
+                    pl = build_plane(lentil, kind, name, v % n_variants(kind, name, clip), clip, po, reg)
+                    first = observe(lentil, lambda ww: ww * pl, build_wavefront(lentil, w0, 'plain', 0, reg))
                     if first != tab((w0, 'plain')):
                         raise GeneratorError(f'{kind} {name} on {(w0, "plain")}: {first} now, {tab((w0, "plain"))} before')
                     used = pl.copy() if via_copy else pl
                     if type(used) is not type(pl):
                         raise GeneratorError(f'{name}.copy() returned a {type(used).__name__}')
-                    o = observe(lentil, lambda ww: ww * used, build_wavefront(lentil, st[0], st[1], v))
+                    o = observe(lentil, lambda ww: ww * used, build_wavefront(lentil, st[0], st[1], v, reg))
                     n_hist += 1
                     if o != tab(st):
                         raise GeneratorError(
@@ -408,7 +516,7 @@ def observe_all():
     # implementation-defined facts about tilt (see Model/PType.v:doc_machine)
     obs['class_tilts'] = {}
     for k in classes:
-        ys = [obs['cls'][(k, None, False, (wt, 'plain'))] for wt in WTYPES]
+        ys = [obs['cls'][(k, None, False, False, (wt, 'plain'))] for wt in WTYPES]
         obs['class_tilts'][k] = any(o[0] == 'yields' and o[1][1] == 'tilted' for o in ys)
     obs['fft_refuses_tilt'] = all(obs['prop'][('fft', (wt, 'tilted'))] == ('raises', 'NotImplementedError', (wt, 'tilted'))
                                   for wt in WTYPES)
@@ -437,7 +545,8 @@ def render(obs):
     a('(* GENERATED by harness/gen_ptype.py from the working tree of lentil -- do not edit.')
     a('   The plane-type transition function of the implementation, observed exhaustively on the')
     a('   real classes: wavefront state (ptype x content) x (Plane(ptype=p) | public plane class, each with')
-    a('   an overlapping and with a disjoint aperture | propagate_dft / propagate_fft). *)')
+    a('   an overlapping and with a disjoint aperture, consistently and inconsistently sampled |')
+    a('   propagate_dft / propagate_fft), under several pixel scales, wavelengths, focal lengths and sizes. *)')
     a('From LV Require Import Model.PType.')
     a('')
     a('(* the public plane classes of the lentil namespace *)')
@@ -461,29 +570,32 @@ def render(obs):
     a('  end.')
     a('')
     a('(* w * Plane(ptype=p, ...) *)')
-    a('Definition observed_mul (s : wstate) (p : ptype) (clip : bool) : outcome :=')
-    a('  match ty s, body s, p, clip with')
+    a('Definition observed_mul (s : wstate) (p : ptype) (clip mism : bool) : outcome :=')
+    a('  match ty s, body s, p, clip, mism with')
     for st in obs['states']:
         for p in PTYPES:
             for clip in (False, True):
-                a(f'  | {W_CON[st[0]]}, {B_CON[st[1]]}, {P_CON[p]}, {_b(clip)} => {_outcome(obs["mul"][(st, p, clip)])}')
+                for mism in (False, True):
+                    a(f'  | {W_CON[st[0]]}, {B_CON[st[1]]}, {P_CON[p]}, {_b(clip)}, {_b(mism)} => '
+                      f'{_outcome(obs["mul"][(st, p, clip, mism)])}')
     a('  end.')
     a('')
     a('(* w * <class>(...) *)')
     a('(* po = Some p: <class>(..., ptype=p); combinations the constructor refuses do not exist as objects')
     a('   (observed_override_ptype = None): they fall into the last line and are never claimed *)')
-    a('Definition observed_class_mul (k : cls) (po : option ptype) (clip : bool) (s : wstate) : outcome :=')
-    a('  match k, po, clip, ty s, body s with')
+    a('Definition observed_class_mul (k : cls) (po : option ptype) (clip mism : bool) (s : wstate) : outcome :=')
+    a('  match k, po, clip, mism, ty s, body s with')
     for k in classes:
         for po in [None] + PTYPES:
             if po is not None and (k, po) not in obs['override_ptype']:
                 continue
             pos = 'None' if po is None else f'Some {P_CON[po]}'
             for clip in (False, True):
-                for st in obs['states']:
-                    a(f'  | {K[k]}, {pos}, {_b(clip)}, {W_CON[st[0]]}, {B_CON[st[1]]} => '
-                      f'{_outcome(obs["cls"][(k, po, clip, st)])}')
-    a('  | _, _, _, _, _ => Raises EOther s')
+                for mism in (False, True):
+                    for st in obs['states']:
+                        a(f'  | {K[k]}, {pos}, {_b(clip)}, {_b(mism)}, {W_CON[st[0]]}, {B_CON[st[1]]} => '
+                          f'{_outcome(obs["cls"][(k, po, clip, mism, st)])}')
+    a('  | _, _, _, _, _, _ => Raises EOther s')
     a('  end.')
     a('')
     a('(* propagate_dft(w, ...) / propagate_fft(w, ...) *)')
